@@ -49,7 +49,8 @@ inline double parse_real(const std::string& v) {
 inline double default_real(const std::string& n) {
     unsigned h = 2166136261u;
     for (size_t i = 0; i < n.size(); ++i) { h ^= (unsigned char)n[i]; h *= 16777619u; }
-    return 0.25 + (h % 1000) / 400.0;   // in [0.25, 2.75)
+    h ^= h >> 16; h *= 0x85ebca6bu; h ^= h >> 13; h *= 0xc2b2ae35u; h ^= h >> 16;   // avalanche
+    return 0.25 + (h % 100003) / 40000.0;   // in [0.25, 2.75)
 }
 }  // namespace verif_native
 
